@@ -596,7 +596,7 @@ class Interp:
         def dead(term):
             ls = [int(m.group(1)) for m in _LOCAL.finditer(term)]
             if not ls:
-                return not (term == "0" or term in ghosts or term.startswith("sub") or term.startswith("len(sub") or term.startswith("inner") or term.startswith("len(inner"))
+                return not (term == "0" or term in ghosts or term.startswith("sub") or term.startswith("len(sub") or term.startswith("inner") or term.startswith("len(inner") or term.startswith("cparam:"))
             return not any(l in keep for l in ls)
         dt = [t for t in st.z.terms() if t != "0" and dead(t)]
         for t in dt:
@@ -676,6 +676,13 @@ class Interp:
         if "k" in o:
             v = o["k"].get("v")
             if v is None:
+                if o["k"].get("param") and int_type(o["k"].get("ty") or ""):
+                    # const generic parameter: one symbolic, immutable value per function instance
+                    t = "cparam:" + o["k"]["param"]
+                    tlo, thi = TYPE_RANGE[int_type(o["k"]["ty"])]
+                    if st.z.lo(t) == -INF and st.z.hi(t) == INF:
+                        st.z.set_range(t, max(tlo, 0) if tlo >= 0 else tlo, thi)
+                    return (t, 0)
                 return None
             return ("0", v)
         p = o.get("c") or o.get("m")
@@ -690,7 +697,11 @@ class Interp:
         if "k" in o:
             v = o["k"].get("v")
             if v is None:
-                return (-INF, INF)
+                tt = self.term_of_operand(st, o)
+                if tt and tt[0] != "0":
+                    return (st.z.lo(tt[0]), st.z.hi(tt[0]))
+                ty = int_type(o["k"].get("ty") or "")
+                return TYPE_RANGE[ty] if ty else (-INF, INF)
             return (v, v)
         p = o.get("c") or o.get("m")
         self.assume_invariants(st, p)
